@@ -36,39 +36,41 @@ def _mk(su: Setup, layout: tuple[int, ...], pool_to: int | None, behaviours: tup
 @harness(
     "C07", "pool_conc",
     quick=[{"ct": ct, "N": n, "P": 1, "_pre": f"lay == {lay} and beh <= 1 and {mode}"}
-           for (ct, n) in (("h11", 1), ("h11", 2), ("h2", 1), ("h1-on-h2-pool", 1)) for lay in (2, 3)
+           for (ct, n) in (("h11", 1), ("h11", 2), ("h2", 1), ("h1-on-h2-pool", 1), ("socks-on-h2-pool", 1)) for lay in (2, 3)
            for mode in ("cancel == 0 and d0 <= 30", "cancel > 0 and d0 == 0 and c0 == 0")],
     per_prop={p: {"quick": [{"ct": ct, "N": 1, "P": 1, "_pre": f"lay == {lay} and beh <= 1 and pto == 0 and {mode}"}
-                            for ct in ("h11", "h2") for lay in (3,)
+                            for ct in ("h11", "h2", "socks-on-h2-pool") for lay in (3,)
                             for mode in ("cancel == 0 and d0 <= 30", "cancel > 0 and d0 == 0 and c0 == 0")],
                   "thorough": [{"ct": ct, "N": n, "P": 1, "_pre": f"lay == {lay} and {mode}"}
-                               for ct in ("h11", "h2", "h1-on-h2-pool") for n in (1, 2) for lay in (2, 3, 4)
+                               for ct in ("h11", "h2", "h1-on-h2-pool", "socks-on-h2-pool") for n in (1, 2) for lay in (2, 3, 4)
                                for mode in ("cancel == 0", "cancel > 0 and d0 == 0 and c0 == 0")]}
               for p in ("C01", "C04", "C05", "C06", "C08", "C15")},
     thorough=[{"ct": ct, "N": 1, "P": 2, "_timeout": 900,
                "_pre": f"lay == {lay} and cancel == 0 and beh == 0 and pto == 0 and d0 % 4 == {r}"}
               for ct in ("h11", "h2") for lay in (2, 3) for r in range(4)]
     + [{"ct": ct, "N": n, "P": 1, "_pre": f"lay == {lay} and cancel == 0"}
-       for ct in ("h11", "h2", "h1-on-h2-pool", "tunnel") for n in (1, 2) for lay in range(6)]
+       for ct in ("h11", "h2", "h1-on-h2-pool", "tunnel", "socks-on-h2-pool") for n in (1, 2) for lay in range(6)]
     + [{"ct": ct, "N": n, "P": 1, "_pre": f"lay == {lay} and cancel > 0 and d0 == 0 and c0 == 0"}
-       for ct in ("h11", "h2", "h1-on-h2-pool", "tunnel") for n in (1, 2) for lay in range(6)],
-    example=dict(lay=2, d0=3, c0=1, d1=0, c1=0, beh=0, pto=0, cancel=0),
+       for ct in ("h11", "h2", "h1-on-h2-pool", "tunnel", "socks-on-h2-pool") for n in (1, 2) for lay in range(6)],
+    example=dict(lay=2, d0=3, c0=1, d1=0, c1=0, beh=0, pto=0, cancel=0, who=0),
     require=("all-served", "waited"),
     timeout={"quick": 300, "thorough": 1500},
-    symbolic="caller layout (2-3 callers over 1-2 origins); up to P deviations from the FIFO schedule (decision index, choice); caller behaviour (read the body / abandon it); whether the last caller has a pool timeout; cancellation of the first caller at a scheduler step (0 = none)",
+    symbolic="caller layout (2-3 callers over 1-2 origins); up to P deviations from the FIFO schedule (decision index, choice); caller behaviour (read the body / abandon it); whether the last caller has a pool timeout; cancellation of one caller (which one is symbolic) at a scheduler step (0 = none)",
     bounds="<= 3 callers, <= 2 origins, max_connections N in {1,2}, P <= 1 (quick) / 2 (thorough) deviations among the first 40 scheduling decisions, HTTP/1.1, HTTP/2, HTTP/1.1 server behind an http2-enabled pool (the 'turned out to be HTTP/1.1' re-queue), tunnel proxy",
     outside="more callers/deviations; unbounded arrival streams (fairness)",
     stubs=("verif.vrt scheduler: FIFO ready queue + bounded deviations", "servers answer every request"),
     also=("C01", "C04", "C05", "C06", "C08", "C15"),
 )
-def pool_conc(lay: int, d0: int, c0: int, d1: int, c1: int, beh: int, pto: int, cancel: int) -> None:
+def pool_conc(lay: int, d0: int, c0: int, d1: int, c1: int, beh: int, pto: int, cancel: int, who: int) -> None:
     """
     pre: 0 <= lay <= 5 and 0 <= d0 <= 40 and 0 <= c0 <= 2 and 0 <= d1 <= 40 and 0 <= c1 <= 2
-    pre: 0 <= beh <= 2 and 0 <= pto <= 1 and 0 <= cancel <= 45
+    pre: 0 <= beh <= 2 and 0 <= pto <= 1 and 0 <= cancel <= 45 and 0 <= who <= 2
     post: _
     """
     npre = shard("P", 1)
     if npre < 2 and (d1 or c1):
+        return
+    if cancel == 0 and who != 0:
         return
     if npre >= 2 and not (d0 < d1 or (d1 == 0 and c1 == 0)):
         return
@@ -80,12 +82,15 @@ def pool_conc(lay: int, d0: int, c0: int, d1: int, c1: int, beh: int, pto: int, 
     behaviours = (("read",), ("abandon", "read"), ("read", "abandon"))[b]
     pool_to = (None, 500)[ladder(pto, 0, 1)]
     cz = ladder(cancel, 0, 45)
-    with concrete(cz, b, *[x for d in devs for x in d]):
-        _pool_conc(layout, devs, behaviours, pool_to, cz)
+    wh = ladder(who, 0, 2)
+    if wh >= len(layout):
+        return
+    with concrete(cz, b, wh, *[x for d in devs for x in d]):
+        _pool_conc(layout, devs, behaviours, pool_to, cz, wh)
 
 
 def _pool_conc(layout: tuple[int, ...], devs: list[tuple[int, int]], behaviours: tuple[str, ...],
-               pool_to: int | None, cancel_at: int) -> None:
+               pool_to: int | None, cancel_at: int, who: int = 0) -> None:
     ct = shard("ct", "h11")
     N = shard("N", 1)
     kw: dict[str, typing.Any] = {}
@@ -93,11 +98,14 @@ def _pool_conc(layout: tuple[int, ...], devs: list[tuple[int, int]], behaviours:
     if ct == "h1-on-h2-pool":
         real_ct = "h11tls"
         kw["http2"] = True  # ALPN offers h2, the server picks http/1.1
+    if ct == "socks-on-h2-pool":
+        real_ct = "sockstls"
+        kw["http2"] = True  # same through a SOCKS5 proxy: the connecting connection is shared
     su = Setup(real_ct, True, max_connections=N, **kw)
     sig = f"conc:{ct}:N{N}"
     counter = StreamCounter(su, N, sig)
     callers = _mk(su, layout, pool_to, behaviours)
-    cancels = [("c0", cancel_at, False)] if cancel_at else []
+    cancels = [(f"c{who}", cancel_at, False)] if cancel_at else []
     run_callers(su, callers, devs, cancels)
     rt = vrt.RT
     P.reached()
@@ -113,7 +121,7 @@ def _pool_conc(layout: tuple[int, ...], devs: list[tuple[int, int]], behaviours:
         P.cover("all-served")
     if len(layout) > N:
         P.cover("waited")
-    if cancel_at and rt.task("c0").cancel_deliveries:
+    if cancel_at and rt.task(f"c{who}").cancel_deliveries:
         P.cover("cancelled")
     P.check(scen.n_requests(su.pool) == 0 or bool(rt.deadlocked), "queue-empty-at-quiescence", f"{sig}:queue-not-empty", prop="C07")
     # ------------------------------------------- C05 / C06 at quiescence (no caller left)
